@@ -433,7 +433,8 @@ def C.hello (c : C) : C × Option CErr :=
       | (c, r) => ({ c with helloErr := rrErr r }, rrErr r)
 
 /-- `initStartTLS` + `startTLS` (NewClientStartTLS, DialStartTLS): EHLO, STARTTLS only if offered, and after a 220
-    a new connection state: the buffered plaintext is dropped with the old reader and EHLO will be sent again -/
+    a new connection state: the buffered plaintext is dropped with the old reader, the capabilities learned in
+    plaintext are forgotten (RFC 3207 4.2) and EHLO will be sent again -/
 def C.initStartTLS (c : C) : C × Option CErr :=
   match c.hello with
   | (c, some e) => (c, some e)
@@ -441,7 +442,7 @@ def C.initStartTLS (c : C) : C × Option CErr :=
     if !hasExt c.ext "STARTTLS" then (c, some .other)
     else match c.cmd 220 "STARTTLS".b with
       | (c, .ok _ _) =>
-        ({ c with tlsPending := true, didHello := false, peer := { c.peer with readable := [] } }, none)
+        ({ c with tlsPending := true, didHello := false, ext := [], peer := { c.peer with readable := [] } }, none)
       | (c, r) => (c, rrErr r)
 
 inductive Call
